@@ -276,6 +276,10 @@ def snap_events(events, out, path):
     interpolated attribute values, include fallbacks)"""
     from genshi.core import START
     from genshi.template.base import EXPR, SUB, INCLUDE, EXEC
+    if not isinstance(events, (list, tuple)):
+        # not a list (e.g. a generator): it must not be consumed by looking at it
+        out[path] = ('not-a-list', type(events).__name__, id(events))
+        return
     out[path] = ('list', id(events), len(events))
     for i, ev in enumerate(events):
         p = path + (i,)
@@ -481,7 +485,11 @@ def oracle_seq(case, res=None):
                 cmp_render(case, 'op %d pickle: the unpickled copy renders like a fresh object' % n, got, expected(0), fails)
         elif name == 'load':
             if b.loader is not None:
-                t2 = b.loader.load('main.html')
+                try:
+                    t2 = b.loader.load('main.html')
+                except Exception as e:  # noqa
+                    t2 = b.tmpl
+                    fails.append(fail(case, 'op %d load: the loader serves the registered object' % n, 'same object', errname(e)))
                 if t2 is not b.tmpl:
                     fails.append(fail(case, 'op %d load: the loader serves the registered object' % n, 'same object', 'another object'))
                 for fn in sorted(tspec.get('files') or {}):
@@ -703,6 +711,8 @@ def oracle_case(case, res=None):
         return fails
     if kind == 'interleave':
         return oracle_interleave(case, res, with_foot=False)[0]
+    if kind == 'pristine':
+        return oracle_pristine(case, res)
     if kind == 'threads':
         if case.get('preempt_scan'):
             # "some preemption point inside this function breaks it": try each line of the function as the
@@ -1177,11 +1187,48 @@ def _fresh_loader_entry(f, k):
     return False
 
 
+def ref_main():
+    """entry point of the pristine reference process: solo renders of the cases on stdin, each computed
+    in an interpreter in which nothing else was ever rendered"""
+    from harness import stage
+    stage.stage('c')
+    req = json.load(sys.stdin)
+    out = [list(solo(req['tmpl'], d)) for d in req['data']]
+    json.dump(out, sys.stdout)
+
+
+def pristine_solo(case):
+    import os, subprocess
+    root = os.path.dirname(os.path.dirname(os.path.dirname(os.path.abspath(__file__))))
+    code = 'import sys; sys.path.insert(0, %r); from harness.props import c10; c10.ref_main()' % root
+    p = subprocess.run([sys.executable, '-B', '-c', code], input=json.dumps({'tmpl': case['tmpl'], 'data': case['data']}).encode(),
+                       stdout=subprocess.PIPE, stderr=subprocess.PIPE, timeout=120)
+    if p.returncode != 0:
+        raise RuntimeError('reference process failed: ' + p.stderr.decode()[-300:])
+    return [(ev, term) for ev, term in json.loads(p.stdout.decode())]
+
+
+def oracle_pristine(case, res=None):
+    """"rendering alone" taken literally: the render of a fresh object in this worker process -- in which
+    hundreds of other renders already happened -- must equal the render in a pristine interpreter
+    (state that outlives a render anywhere outside the template object: module globals, class attributes,
+    default arguments)"""
+    fails = []
+    here = [solo(case['tmpl'], d) for d in case['data']]
+    there = pristine_solo(case)
+    for k, (a, b) in enumerate(zip(here, there)):
+        a = json.loads(json.dumps(a))
+        cmp_render(case, 'data set %d: a fresh object renders in this (used) process what it renders in a pristine process' % k,
+                   (a[0], a[1]), (b[0], b[1]), fails)
+    return fails
+
+
 def shard(arg):
     import random
     seed, idx, n, tier = arg
     rng = random.Random('%s/%s/C10' % (seed, idx))
     res = Result()
+    recent = []
     for j in range(n):
         kind = ['seq', 'interleave', 'seq', 'interleave', 'threads'][j % 5] if j % 10 == 9 or j % 5 != 4 else 'interleave'
         case, feats = gen_case(rng, kind)
@@ -1210,6 +1257,19 @@ def shard(arg):
             res.nontrivial.add(json.dumps([kind, case['tmpl']['src'][:300], len(case['data'])], sort_keys=True)[:400])
         if j < 2:
             res.samples.append(case)
+        if not case['tmpl'].get('files') and len(feats) >= 3:
+            recent.append(case)
+    # a few of the cases once more against a pristine interpreter (at the end: this process has history now)
+    for case in recent[-(4 if tier != 'thorough' else 12):]:
+        res.count('kind:pristine')
+        try:
+            f = oracle_pristine({'kind': 'pristine', 'tmpl': case['tmpl'], 'data': case['data']}, res)
+        except Exception as e:  # noqa
+            res.count('pristine-infra-' + type(e).__name__)
+            continue
+        res.evaluations += 1
+        if f:
+            res.failures.append(f[0])
     return res
 
 
